@@ -76,9 +76,12 @@ impl RtpsStatefulReader {
             .iter_mut()
             .find(|x| x.remote_writer_guid() == writer_guid)
         {
+            // No change can follow the maximum sequence number
+            let Some(expected_seq_num) = writer_proxy.available_changes_max().checked_add(1) else {
+                return;
+            };
             match self.reliability {
                 ReliabilityKind::BestEffort => {
-                    let expected_seq_num = writer_proxy.available_changes_max() + 1;
                     if sequence_number >= expected_seq_num {
                         writer_proxy.received_change_set(sequence_number);
                         if sequence_number > expected_seq_num {
@@ -95,7 +98,6 @@ impl RtpsStatefulReader {
                     }
                 }
                 ReliabilityKind::Reliable => {
-                    let expected_seq_num = writer_proxy.available_changes_max() + 1;
                     if sequence_number == expected_seq_num {
                         writer_proxy.received_change_set(sequence_number);
 
@@ -139,15 +141,17 @@ impl RtpsStatefulReader {
             .iter_mut()
             .find(|x| x.remote_writer_guid() == writer_guid)
         {
+            // No change can follow the maximum sequence number
+            let Some(expected_seq_num) = writer_proxy.available_changes_max().checked_add(1) else {
+                return;
+            };
             match self.reliability {
                 ReliabilityKind::BestEffort => {
-                    let expected_seq_num = writer_proxy.available_changes_max() + 1;
                     if sequence_number >= expected_seq_num {
                         writer_proxy.push_data_frag(data_frag_submessage.clone());
                     }
                 }
                 ReliabilityKind::Reliable => {
-                    let expected_seq_num = writer_proxy.available_changes_max() + 1;
                     if sequence_number == expected_seq_num {
                         writer_proxy.push_data_frag(data_frag_submessage.clone());
                     }
